@@ -181,6 +181,26 @@ Definition target_width (o : topts) (avail : Z) : Z :=
 Definition table_widths (stale capmin : bool) (o : topts) (cols : list tcol) (avail : Z) : res (list Z) :=
   calc_widths stale capmin o cols (target_width o avail - extra_width o (length cols)).
 
+(* the tables for which "asked to expand => exactly the width asked for" is claimed (theorem
+   C07_table_expand_exact) and checked on the implementation (spec.expand_exact): expand or width
+   set; every column free to wrap (no width, no min_width, no no_wrap; max_width / ratio, if given,
+   at least 1); non-negative horizontal padding; at least one cell per column beyond the borders.
+   A column min_width is excluded on purpose: the collapse levels such a column like any other and
+   the re-measure clamps it back up, so the table can end up wider than asked (notes/C07.md). *)
+Definition col_free_b (c : tcol) : bool :=
+  match c_width c with None => true | Some _ => false end
+  && match c_minw c with None => true | Some _ => false end
+  && negb (c_nowrap c)
+  && match c_maxw c with Some w => 1 <=? w | None => true end
+  && match c_ratio c with Some x => 1 <=? x | None => true end.
+
+Definition expand_dom_b (o : topts) (cols : list tcol) (avail : Z) : bool :=
+  t_expand o
+  && negb (length cols =? 0)%nat
+  && forallb col_free_b cols
+  && (0 <=? pad_right o) && (0 <=? pad_left o)
+  && (extra_width o (length cols) + Z.of_nat (length cols) <=? target_width o avail).
+
 (* ---------------------------------------------------------------- a concrete cell: padded text
    Measurement.get(console, Padding(Text, pad), w) resp. Measurement.get(console, str, w), as a
    function of the text's own measurement (tmin = widest word, tmax = widest line) and the
